@@ -12,14 +12,15 @@ if [ -n "${TRYMUT_SCRATCH:-}" ]; then
   if ! git apply "$patch" 2>/dev/null; then
     git apply --3way "$patch" >/dev/null 2>&1 || { echo "PATCH DOES NOT APPLY: $patch"; exit 3; }
   fi
-  rm -rf /verif/.build/evidence.keep$$; cp -r /verif/evidence /verif/.build/evidence.keep$$ 2>/dev/null
+  # (.build/noevid: several runs share /verif/evidence right now; it is regenerated on the clean tree afterwards)
+  [ -e /verif/.build/noevid ] || { rm -rf /verif/.build/evidence.keep$$; cp -r /verif/evidence /verif/.build/evidence.keep$$ 2>/dev/null; }
   for id in "$@"; do
     out=$(cd /verif && VERIF_REPO="$wt" ./check "$id" quick 2>&1); rc=$?
     echo "== $id exit=$rc: $(echo "$out" | grep -c '^VIOLATION') violation line(s)"
     echo "$out" | grep -A1 '^VIOLATION' | grep signature | head -4
     echo "$out" | grep -E '^INCONCLUSIVE' | head -3
   done
-  [ -d /verif/.build/evidence.keep$$ ] && { rm -rf /verif/evidence; mv /verif/.build/evidence.keep$$ /verif/evidence; }
+  [ -e /verif/.build/noevid ] || { [ -d /verif/.build/evidence.keep$$ ] && { rm -rf /verif/evidence; mv /verif/.build/evidence.keep$$ /verif/evidence; }; }
   exit 0
 fi
 cd /repo || exit 2
@@ -29,7 +30,7 @@ if ! git apply "$patch" 2>/dev/null; then
   git reset -q
 fi
 # evidence files are rewritten by every run: keep the ones of the unchanged tree
-rm -rf /verif/.build/evidence.keep; cp -r /verif/evidence /verif/.build/evidence.keep 2>/dev/null
+[ -e /verif/.build/noevid ] || { rm -rf /verif/.build/evidence.keep; cp -r /verif/evidence /verif/.build/evidence.keep 2>/dev/null; }
 for id in "$@"; do
   out=$(cd /verif && ./check "$id" quick 2>&1); rc=$?
   echo "== $id exit=$rc: $(echo "$out" | grep -c '^VIOLATION') violation line(s)"
@@ -37,4 +38,4 @@ for id in "$@"; do
   echo "$out" | grep -E '^INCONCLUSIVE' | head -3
 done
 git checkout -q -- . ; git reset -q; git status --porcelain | head
-[ -d /verif/.build/evidence.keep ] && { rm -rf /verif/evidence; mv /verif/.build/evidence.keep /verif/evidence; }
+[ -e /verif/.build/noevid ] || { [ -d /verif/.build/evidence.keep ] && { rm -rf /verif/evidence; mv /verif/.build/evidence.keep /verif/evidence; }; }
